@@ -57,6 +57,16 @@ CHECKS = {
              'every event. 30% of the runs also compile a program whose body builds one term by a seeded permutation of unifications and consume it '
              'through the documented collect idiom, findall/3 and assertz.',
         note='Non-ground saved values are checked at save time only; to_python is compared only where it is documented (proper lists). Trusts the substitution model and the to_python mapping in ypsim.terms.'),
+    'C17': dict(
+        category='fault_enumeration', design_ref='DESIGN.md section 4, C17',
+        technique='deterministic simulation with fault injection: per sampled (query, caller depth, initial limit, holder mode, projection) every recursion limit in a 236-frame window and a projection raising at every k; prefix oracle = plain enumeration; limit/variable restoration',
+        text='Per seeded world the fault space is enumerated completely: every recursion_limit from caller depth + 8 to + 243 (the interpreter raises '
+             'wherever the search meets that depth: inside unify, a clause, get_value, a finally block, or the projection) and the projection raising '
+             'at every k <= 6 with two exception types. Checked per call: no RecursionError escapes, the result is a prefix of the plain enumeration '
+             '(and complete when the plain enumeration fits under a limit 12 frames lower), sys.getrecursionlimit() is what it was (also when the '
+             'caller had a lower limit than the one requested), and every variable is unbound once the call has returned or its exception has been '
+             'released, whether or not the caller still holds the query.',
+        note='Runs on one fresh thread per world so that the caller depth is a constant; limits are relative to the measured caller frame depth. Self-referential prefix oracle; engine exceptions other than RecursionError are outcomes.'),
     'C18': dict(
         category='exploration', design_ref='DESIGN.md section 4, C18',
         technique='deterministic simulation of the environment: pool of fresh interpreters with seeded PYTHONHASHSEED, fake clock/pid and seeded compile histories; byte comparison',
@@ -79,7 +89,7 @@ NOT_APPLICABLE = [
 ]
 
 PENDING = {p: 'claimed in DESIGN.md; its check is not built yet at this commit (work in progress), so nothing is claimed for it here' for p in
-           ['C04', 'C08', 'C17', 'C20']}   # property id -> reason, for claimed-in-design properties whose check is not built yet
+           ['C04', 'C08', 'C20']}   # property id -> reason, for claimed-in-design properties whose check is not built yet
 
 
 def main():
